@@ -26,6 +26,7 @@ type World struct {
 	detMemo    map[*types.Func]bool
 	predMemo   map[*types.Func]*predFormula
 	exprMemo   map[*types.Func]*ast.FuncDecl
+	wrMemo     map[*types.Func]wrSummary
 	InlinePreds bool // second reading: boolean helper calls stand for their bodies (see inline.go)
 	obsUse     map[types.Object]bool
 	obsDef     map[ast.Expr]bool
